@@ -44,6 +44,11 @@ pub fn check_frame(ctx: &mut Ctx, section: &str, frame: &[u8], tag: &str) -> Vec
         if below_odd {
             break;
         }
+        // `$n` is documented to stop at a fixed protocol depth (MAX_PROTO_DEPTH = 10): deeper stacks
+        // (eleven and more VLAN tags ...) are outside what the accessors promise
+        if depth > 10 {
+            break;
+        }
         let (mut exprs, fs) = scalar_exprs(depth, p.layer);
         exprs.push(format!("(${}).payload", depth));
         exprs.push(format!("${}", depth));
